@@ -135,6 +135,7 @@ def compute_context_additions(
     if curr_tree.value != tree.value:
         return []
 
+    inserted_tree = tree  # `tree` is re-bound by the loops below
     into_tree = in_tree.replace_path(current_path, tree)
 
     # We have to make sure that all building blocks of in_tree occur in the result.
@@ -176,6 +177,11 @@ def compute_context_additions(
             and tree.find_node(into_tree) is not None
         )
         and all(tree.find_node(node.id) is not None for _, node in in_tree.paths())
+        # The re-insertion must not use up or re-expand nodes of the inserted tree.
+        and all(
+            tree.find_node(node.id) is not None for _, node in inserted_tree.paths()
+        )
+        and inserted_tree.is_prefix(tree.get_subtree(tree.find_node(inserted_tree)))
     ]
 
 
